@@ -244,7 +244,10 @@ func (r Relation) Join(r2 Relation, keys, leftOutput, rightOutput NamesSlice) Se
 	if rows.IsLiteralTrue() {
 		return True
 	}
-	attrs := append(leftOutput, rightOutput...)
+	// Copy rather than append in place: leftOutput may be the left operand's own attrs
+	// slice (with spare capacity), which other relations joined from it share.
+	attrs := make(NamesSlice, 0, count)
+	attrs = append(append(attrs, leftOutput...), rightOutput...)
 	if len(attrs) == 2 {
 		at, val := 0, 1
 		if attrs[val] == "@" {
